@@ -4,6 +4,7 @@ import (
 	"bytes"
 	"fmt"
 	"io"
+	"net"
 
 	"nhooyr.io/websocket"
 	"nhooyr.io/websocket/wsjson"
@@ -34,6 +35,11 @@ type idiomParams struct {
 	API  string // "raw" | "wsjson"
 	K    connCfg // endpoint A (the writer); B has the other role
 	Msgs []idiomMsg
+	// Duplex: B writes the same message sequence back to A at the same time (two more tasks)
+	Duplex bool
+	// Split > 0: the relays deliver every transport write in two pieces, the first of Split
+	// bytes (a frame header then arrives in two transport reads)
+	Split int
 }
 
 func idiomSetup(prm idiomParams) func(c *fw.Ctx, name string) explore.Setup {
@@ -47,7 +53,8 @@ func idiomSetup(prm idiomParams) func(c *fw.Ctx, name string) explore.Setup {
 				b    []byte
 				v    interface{}
 			}
-			var sent, recv []got
+			var sent, recv, back []got
+			nsent := 0
 			var werr, rerr error
 			wdone, rdone := false, false
 			closedEarly := ""
@@ -63,6 +70,11 @@ func idiomSetup(prm idiomParams) func(c *fw.Ctx, name string) explore.Setup {
 								return
 							}
 							vs.BlockOn(from.WObj(), "relay.take", nil, func() { chunk = append([]byte(nil), from.Out[n:]...); n = len(from.Out) })
+							if prm.Split > 0 && len(chunk) > prm.Split {
+								to.Send(chunk[:prm.Split])
+								to.WaitDrained()
+								chunk = chunk[prm.Split:]
+							}
 							to.Send(chunk)
 						}
 					})
@@ -81,13 +93,28 @@ func idiomSetup(prm idiomParams) func(c *fw.Ctx, name string) explore.Setup {
 					}
 					sent = append(sent, g)
 				}
-				probe := got{text: true, b: []byte("probe")}
+				probe := got{text: prm.API != "netconn", b: []byte("probe")}
 				if prm.API == "wsjson" {
 					probe = got{text: true, v: "probe"}
 				}
-				writeOne := func(i int, g got, m idiomMsg) error {
+				var recvBack []got
+				var werrBack, rerrBack error
+				wdoneBack, rdoneBack := !prm.Duplex, !prm.Duplex
+				// API netconn: both endpoints are used through the net.Conn adapter (binary
+				// messages; the reader asks for exactly the bytes of the next message)
+				probing := false
+				ncs := map[*websocket.Conn]net.Conn{}
+				if prm.API == "netconn" {
+					ncs[a] = websocket.NetConn(bg, a, websocket.MessageBinary)
+					ncs[b] = websocket.NetConn(bg, b, websocket.MessageBinary)
+				}
+				writeOneOn := func(a *websocket.Conn, i int, g got, m idiomMsg) error {
 					ctx, cancel := vctx.WithCancel(bg)
 					defer cancel()
+					if prm.API == "netconn" {
+						_, err := ncs[a].Write(g.b)
+						return err
+					}
 					if prm.API == "wsjson" {
 						return wsjson.Write(ctx, a, g.v)
 					}
@@ -111,9 +138,22 @@ func idiomSetup(prm idiomParams) func(c *fw.Ctx, name string) explore.Setup {
 					}
 					return wr.Close()
 				}
-				readOne := func(i int) (got, error) {
+				writeOne := func(i int, g got, m idiomMsg) error { return writeOneOn(a, i, g, m) }
+				readOneOn := func(b *websocket.Conn, i int) (got, error) {
 					ctx, cancel := vctx.WithCancel(bg)
 					defer cancel()
+					if prm.API == "netconn" {
+						want := len(probe.b)
+						if !probing {
+							want = 0
+							for _, ch := range msgs[i].Chunks {
+								want += ch
+							}
+						}
+						buf := make([]byte, want)
+						_, err := io.ReadFull(ncs[b], buf)
+						return got{b: buf}, err
+					}
 					if prm.API == "wsjson" {
 						var v interface{}
 						err := wsjson.Read(ctx, b, &v)
@@ -129,6 +169,28 @@ func idiomSetup(prm idiomParams) func(c *fw.Ctx, name string) explore.Setup {
 					}
 					p, err := io.ReadAll(r)
 					return got{text: typ == websocket.MessageText, b: p}, err
+				}
+				readOne := func(i int) (got, error) { return readOneOn(b, i) }
+				if prm.Duplex {
+					w.GoHarness("writer-back", true, func() {
+						for i, g := range sent {
+							if werrBack = writeOneOn(b, i, g, msgs[i]); werrBack != nil {
+								break
+							}
+						}
+						wdoneBack = true
+					})
+					w.GoHarness("reader-back", true, func() {
+						for i := range sent {
+							g, err := readOneOn(a, i)
+							if err != nil {
+								rerrBack = err
+								break
+							}
+							recvBack = append(recvBack, g)
+						}
+						rdoneBack = true
+					})
 				}
 				w.GoHarness("writer", true, func() {
 					for i, g := range sent {
@@ -149,7 +211,17 @@ func idiomSetup(prm idiomParams) func(c *fw.Ctx, name string) explore.Setup {
 					}
 					rdone = true
 				})
-				vs.BlockOn(pa.RObj(), "wait-both", func() bool { return wdone && rdone }, func() {})
+				vs.BlockOn(pa.RObj(), "wait-both", func() bool { return wdone && rdone && wdoneBack && rdoneBack }, func() {})
+				if prm.Duplex {
+					nsent = len(sent)
+					back = recvBack
+					if werr == nil {
+						werr = werrBack
+					}
+					if rerr == nil {
+						rerr = rerrBack
+					}
+				}
 				if werr != nil || rerr != nil {
 					return
 				}
@@ -159,6 +231,7 @@ func idiomSetup(prm idiomParams) func(c *fw.Ctx, name string) explore.Setup {
 					return
 				}
 				sent = append(sent, probe)
+				probing = true
 				if werr = writeOne(len(sent)-1, probe, idiomMsg{Text: true, Chunks: []int{5}}); werr != nil {
 					return
 				}
@@ -199,6 +272,16 @@ func idiomSetup(prm idiomParams) func(c *fw.Ctx, name string) explore.Setup {
 					violate(c, w, name, pp+"/message-lost/idiom/"+role, fmt.Sprintf("%d messages sent, %d received", len(sent), len(recv)))
 					return
 				}
+				if prm.Duplex && len(back) != nsent {
+					violate(c, w, name, pp+"/message-lost/idiom/"+role, fmt.Sprintf("reverse direction: %d messages sent, %d received", nsent, len(back)))
+					return
+				}
+				for i := range back {
+					if prm.API != "wsjson" && (sent[i].text != back[i].text || !bytes.Equal(sent[i].b, back[i].b)) {
+						violate(c, w, name, pp+"/message-differs/idiom/"+role, fmt.Sprintf("reverse direction, message %d: sent (text=%v, %d bytes), received (text=%v, %d bytes, first difference at %d)", i, sent[i].text, len(sent[i].b), back[i].text, len(back[i].b), firstDiff(sent[i].b, back[i].b)))
+						return
+					}
+				}
 				for i := range sent {
 					if prm.API == "wsjson" {
 						if fmt.Sprintf("%#v", sent[i].v) != fmt.Sprintf("%#v", recv[i].v) {
@@ -229,6 +312,9 @@ func idiomScenarios(prop, api string) func(tier string) []scenario {
 			"mixed":  {{Chunks: []int{300}}, {Text: true, Stream: true, Chunks: []int{5, 300}}, {Text: true, Chunks: []int{0}}, {Chunks: []int{20}}},
 			"stream": {{Stream: true, Chunks: []int{4}}, {Stream: true, Text: true, Chunks: []int{}}, {Chunks: []int{7}}},
 		}
+		if api == "netconn" {
+			progs = map[string][]idiomMsg{"stream": {{Chunks: []int{300}}, {Chunks: []int{3}}, {Chunks: []int{40}}}}
+		}
 		if api == "wsjson" {
 			progs = map[string][]idiomMsg{"values": {{Chunks: []int{300}}, {Chunks: []int{3}}, {Chunks: []int{40}}}}
 		}
@@ -242,12 +328,22 @@ func idiomScenarios(prop, api string) func(tier string) []scenario {
 				scs = append(scs, scenario{Name: "idiom/" + pn + "/" + k.String(), Cfg: explore.Config{P: p, Horizon: 60e9}, Setup: idiomSetup(prm)})
 			}
 		}
+		if api == "raw" || api == "netconn" {
+			// both directions at once, every transport write delivered in two pieces (the frame
+			// header arrives in two transport reads while the endpoint's own writer runs)
+			for _, k := range []connCfg{{Client: true}, {Client: false, Flate: true, Thr: 512}} {
+				for _, split := range []int{3} {
+					prm := idiomParams{Prop: prop, API: api, K: k, Duplex: true, Split: split, Msgs: []idiomMsg{{Chunks: []int{300}}}}
+					scs = append(scs, scenario{Name: fmt.Sprintf("idiom/duplex-split%d/%s", split, k.String()), Cfg: explore.Config{P: p, Horizon: 60e9}, Setup: idiomSetup(prm)})
+				}
+			}
+		}
 		return scs
 	}
 }
 
 func init() {
-	for _, e := range []struct{ prop, api string }{{"C01", "raw"}, {"C19", "wsjson"}} {
+	for _, e := range []struct{ prop, api string }{{"C01", "raw"}, {"C19", "wsjson"}, {"C18", "netconn"}} {
 		scs := idiomScenarios(e.prop, e.api)
 		fw.Register(fw.Part{Prop: e.prop, Name: "s.idiom",
 			Units:  func(tier string) []fw.Unit { return scenarioUnits(scs(tier)) },
